@@ -57,6 +57,11 @@ type Case struct {
 	// Observed: objects (indices into the flattened object list) whose
 	// statistics (1) or tracing (2) are switched on before the calls start.
 	Observed map[int]int `json:"observed,omitempty"`
+	// Overload: at the end forty goroutines call one slow method through one
+	// session at once: more than the server queues for a connection. Every
+	// call still gets exactly one outcome: its own result, or the server's
+	// refusal (in which case it did not run).
+	Overload bool `json:"overload,omitempty"`
 }
 
 func genCase(t *rapid.T) Case {
@@ -92,6 +97,7 @@ func genCase(t *rapid.T) Case {
 		c.Sessions = append(c.Sessions, gs)
 	}
 	c.RemoveUnderLoad = rapid.Bool().Draw(t, "removeunderload")
+	c.Overload = rapid.IntRange(0, 3).Draw(t, "overload") == 0
 	if rapid.IntRange(0, 2).Draw(t, "observe") == 0 {
 		c.Observed = map[int]int{}
 		for k := rapid.IntRange(1, 3).Draw(t, "nobserved"); k > 0; k-- {
@@ -369,6 +375,51 @@ func checkCase(c Case) (verr error) {
 	for _, f := range raw.Frames() {
 		if tag, ok := postIDs.Load(f.ID); ok {
 			return vt.Violationf("C04:post-answered", "post %v received a response frame %v", tag, f)
+		}
+	}
+	if c.Overload {
+		tg := targets[len(targets)-1]
+		osess, err := session.NewAuthSession(env.Addr, "u", "t")
+		if err != nil {
+			return vt.Violationf("C04:setup", "session: %v", err)
+		}
+		defer osess.Terminate()
+		opx, err := osess.Proxy(tg.service, tg.objectID)
+		if err != nil {
+			return vt.Violationf("C04:proxy", "Proxy(%s,%d): %v", tg.service, tg.objectID, err)
+		}
+		ping := pong.MakePingPong(osess, opx)
+		type out struct {
+			tag, res string
+			err      error
+		}
+		results := make(chan out, 40)
+		for k := 0; k < 40; k++ {
+			go func(k int) {
+				tag := fmt.Sprintf("overload%d~1500", k)
+				res, err := ping.Hello(tag)
+				results <- out{tag, res, err}
+			}(k)
+		}
+		refusedN := 0
+		for k := 0; k < 40; k++ {
+			select {
+			case o := <-results:
+				n := env.Journal.Count("", "", o.tag)
+				switch {
+				case o.err == nil && o.res == "r:"+o.tag && n == 1:
+				case o.err != nil && strings.Contains(o.err.Error(), "consumer blocked") && n == 0:
+					refusedN++
+				default:
+					return vt.Violationf("C04:overload-outcome", "one of forty concurrent calls on one connection, %s, returned (%q, %v) and its method ran %d times: neither its own result after one execution nor a refusal without execution", o.tag, o.res, o.err, n)
+				}
+			case <-time.After(2 * bound):
+				return vt.Violationf("C04:no-outcome:overload", "after %v only %d of forty concurrent calls on one connection had returned: a call which the server cannot queue must be refused, not left without an answer\n%s", 2*bound, k, vt.BlockedInLibrary())
+			}
+		}
+		vt.Label("overload-phase")
+		if refusedN > 0 {
+			vt.Label("overload-phase-with-refusals")
 		}
 	}
 	// removal under load: an added object is kept busy by a slow call, calls
